@@ -617,6 +617,38 @@ def w_equality(spec, ctx, kf, der):
             eq(k1, k2, False, "ecc:other-key")
             eq(k1, k1.public_key(), False, "ecc:private-vs-public")
             eq(k1.public_key(), ECC.import_key(k1.public_key().export_key(format="DER")), True, "ecc:public-reimport")
+            if not cv.startswith("Curve"):
+                # the key that shares ONE coordinate with k1: NIST d -> n - d (same x, opposite y; the compressed encodings
+                # differ in the first byte only), Edwards (x, y) -> (-x, y) (the encodings differ in the sign bit only);
+                # compared as constructed objects and after an export / import round trip of both
+                pm = int(k1._curve.p)
+                if cv.startswith("Ed"):
+                    opp = ECC.construct(curve=cv, point_x=(pm - int(k1.pointQ.x)) % pm, point_y=int(k1.pointQ.y))
+                    twin = None
+                else:
+                    twin = ECC.construct(curve=cv, d=int(k1._curve.order) - int(k1.d))
+                    opp = twin.public_key()
+                eq(k1.public_key(), opp, int(opp.pointQ.x) == int(k1.pointQ.x) and int(opp.pointQ.y) == int(k1.pointQ.y), "ecc:public-opposite-point")
+                fmts = [("DER", {}), ("PEM", {}), ("raw", {})] if cv.startswith("Ed") else \
+                    [("DER", {}), ("DER", {"compress": True}), ("SEC1", {}), ("SEC1", {"compress": True}), ("OpenSSH", {})]
+                from Crypto.Signature import eddsa as _eddsa
+                for fmt, kw in fmts:
+                    def imp_(k):
+                        blob = k.export_key(format=fmt, **kw)
+                        if fmt == "raw":
+                            return _eddsa.import_public_key(blob)
+                        if fmt == "SEC1":
+                            return ECC.import_key(blob, curve_name=cv)
+                        return ECC.import_key(blob)
+                    imp, imp2 = imp_(k1.public_key()), imp_(opp)
+                    eq(imp, imp2, False, "ecc:public-opposite-point-reimported")
+                    eq(imp, k1.public_key(), True, "ecc:public-reimport")
+                    ctx.count("equality_opposite_point_pairs")
+                if twin is not None:
+                    eq(k1, twin, False, "ecc:private-opposite-scalar")
+                    for fmt, kw in (("DER", {}), ("DER", {"use_pkcs8": False}), ("PEM", {})):
+                        eq(ECC.import_key(k1.export_key(format=fmt, **kw)), ECC.import_key(twin.export_key(format=fmt, **kw)), False,
+                           "ecc:private-opposite-scalar-reimported")
         for a in CURVES:
             b = rng.choice([c for c in CURVES if c != a])
             eq(keys[a], keys[b], False, "ecc:cross-curve")
